@@ -99,6 +99,7 @@ def run(tier):
         expect[(e["tree"], e["first"])] = e
     out = os.path.join(d, "real.json")
     p = subprocess.run([C.TSGV, "parse-errors", srcdir, out], stdout=subprocess.PIPE, stderr=subprocess.DEVNULL, text=True, timeout=3000)
+    C.killed_from_outside(p.returncode)
     if p.returncode != 0:
         V.violation("process", {"property": PROP, "detail": "the process listing parse errors died with status %d" % p.returncode}, {"observed": "abort"})
         real = []
